@@ -298,14 +298,16 @@ fn real_classify(tokens: &[String]) -> Result<Vec<RArg>, String> {
     }
 }
 
-pub fn c08_lists(max_items: u32, max_sym: u32) -> EnumOutcome {
+pub const C08_BOUNDARY: [&str; 10] = ["-", "a", "\u{7f}", "\u{80}", "\u{7ff}", "\u{800}", "\u{7fff}", "\u{8000}", "\u{ffff}", "\u{10ffff}"];
+
+pub fn c08_lists(sigma: &[&str], max_items: u32, max_sym: u32) -> EnumOutcome {
     let t0 = Instant::now();
-    let ntok = count_strings(6, max_sym);
+    let ntok = count_strings(sigma.len() as u64, max_sym);
     let total = count_strings(ntok, max_items);
     let mut toks: Vec<String> = vec![];
     let mut tmp = String::new();
     for i in 0..ntok {
-        nth_string(&C08_SIGMA, i, &mut tmp);
+        nth_string(sigma, i, &mut tmp);
         toks.push(tmp.clone());
     }
     let chunk = 8192u64;
@@ -367,7 +369,7 @@ pub fn c08_lists(max_items: u32, max_sym: u32) -> EnumOutcome {
             a.merge(b);
             a
         });
-    out.name = format!("classifier: every list of <= {} tokens of <= {} symbols over {{-, a, é, 中, 𝄞, space}}", max_items, max_sym);
+    out.name = format!("classifier: every list of <= {} tokens of <= {} symbols over {:?}", max_items, max_sym, sigma);
     out.rule = "all token lists by index through Tokens::from_raw + ArgList::args(); non-trivial = some item is not a plain value".into();
     out.expected = Some(total);
     out.exhaustive = out.evaluations == total;
